@@ -97,7 +97,7 @@ func ExploreScenario(r *verifmc.Run, sc Scenario, bound int) Stats {
 	}
 	budget := 3000000 // projected scheduling steps allowed for going one bound deeper
 	if r.Thorough() {
-		budget = 150000000
+		budget = 40000000
 	}
 	if v := os.Getenv("VERIF_SCHED_BUDGET"); v != "" {
 		budget, _ = strconv.Atoi(v)
